@@ -21,7 +21,7 @@ CLAIMED = {
  'C02': dict(
     text='For arbitrary peer bytes every extracted FastCGI and SCGI protocol callback (on_start_request, params_record_expected, stdin_eof_expected, on_header_read, on_body_read, '
          'non_blocking_read_record, cache functions, scgi on_first_read / on_headers_chunk_read) is memory safe, keeps its buffers within a fixed bound, and uses the completion handler '
-         'exactly once (ghost counter). Five genuine defects were found by these obligations, replayed on the real code and fixed (known_findings.txt).',
+         'exactly once (ghost counter). The embedded HTTP server\'s header reader (http::some_headers_data_read, whole function): every invocation ends in exactly one continuation (the completion handler with an error, another header read, or process_request), more header bytes are requested only while at most 16 KiB were read, and the HTTP_<NAME> variable is built in a block that holds prefix + name + NUL. Five genuine defects were found by these obligations, replayed on the real code and fixed (known_findings.txt).',
     note=TRUST + 'Not covered: event-loop survival and isolation of other connections (whole-process/schedule property), the embedded HTTP front end, multipart upload errors. '
          'Collaborators (socket, string pool, env map, atoi/atoll, strlen, memcpy) are stubs with assumed contracts that assert the ranges they are given.',
     design='4 (C01/C02/C12)', technique='cbmc code contracts (dfcc) + loop contracts; ghost handler-exactly-once counter; stubs asserting buffer ranges'),
